@@ -167,8 +167,7 @@ impl Run {
         } else {
             cfg0
         };
-        let log2 = cfg.get("scale").and_then(|x| x.as_u64()).unwrap_or(0);
-        let sc = Scale::new(1u128 << log2);
+        let sc = Scale::of_cfg(cfg);
         let mut w = World::new();
         for u in USERS {
             w.user(u);
@@ -437,7 +436,9 @@ impl Run {
 // ------------------------------------------------------------------------------ random driver
 fn rand_cfg(rng: &mut Rng) -> Value {
     let scale = *rng.pick(&[0u64, 0, 33, 64, 100, 100]);
-    let sc = Scale::new(1u128 << scale);
+    // one run in eight: amounts in units of (2^128-1)/255, so that u128::MAX itself is an amount (255 units)
+    let scale_div = if rng.chance(1, 8) { 255u64 } else { 0 };
+    let sc = Scale::of_cfg(&json!({"scale": scale, "scaleDiv": scale_div}));
     let big = sc.max_amt() > 0 && rng.chance(1, 2);
     let top: u64 = if big { sc.max_amt() as u64 } else { 60 };
     let mut init = vec![];
@@ -477,7 +478,7 @@ fn rand_cfg(rng: &mut Rng) -> Value {
         }
     }
     let marketing = if rng.chance(1, 2) { json!({"addr": rng.pick(&["a1", "a2", "none"]), "logo": rng.pick(&["none", "url", "png", "svg"])}) } else { Value::Null };
-    json!({"scale":scale,"init":init,"minter":minter,"cap":cap,"legacy":legacy,"legacyVersion":legacy_version,"legacyGrants":grants,"marketing":marketing})
+    json!({"scale":scale,"scaleDiv":scale_div,"init":init,"minter":minter,"cap":cap,"legacy":legacy,"legacyVersion":legacy_version,"legacyGrants":grants,"marketing":marketing})
 }
 
 fn rand_exp(rng: &mut Rng, h: u64, t: u64, concrete: bool) -> Value {
